@@ -272,7 +272,7 @@ def ops(rng):
 
     # reading .area first must not change what contains answers (and both agree with the single polygons)
     add("polygon3.area-then-contains", lambda t, p: (t.area, t.contains(p)), poly3, nomix=True)
-    add("polygon3.contains", lambda t, p: t.contains(p), poly3, nomix=True)
+    add("polygon3.contains", lambda t, p: t.contains(p), poly3)
     add("quadric3.degenerate-intersect", lambda q, l: q.intersect(l), lambda: (plane_pair_or_cone(), line3()), tol=1e-6, nomix=True)
     add("conic.dual", lambda q: (q.dual, q.dual.dual), lambda: (circle_and_point()[0],))
     add("quadric.dual", lambda q: (q.dual, q.dual.dual), lambda: (sphere_and_point()[0],))
@@ -283,10 +283,10 @@ def ops(rng):
 
 SHAPES = ["k", "1", "k1", "1k", "mixed", "mk"]
 PERPENDICULAR_FAMILY = ("dist-pl2", "dist-pl3", "dist-pe3", "line.perpendicular", "line.project", "line.mirror", "line3.project",
-                        "plane.project", "plane.perpendicular", "plane.mirror")
+                        "plane.project", "plane.perpendicular", "plane.mirror", "polygon3.contains", "polygon3.area-then-contains")
 
 
-def run(ctx, n, prefix="C04", only=None):
+def run(ctx, n, prefix="C04", only=None, patterns=None):
     """n cases per call; every case = one operation, one shape pattern.  Patterns: all arguments of shape (k,), (1,), (k,1),
     (1,k); "mixed" = one argument is a single object; "mk" = one argument has shape (m,k), the others (k,) (collections
     with different numbers of collection axes, aligned from the right)"""
@@ -294,7 +294,7 @@ def run(ctx, n, prefix="C04", only=None):
     table = [t for t in ops(rng) if only is None or t[0] in only]
     for _ in range(n):
         name, f, gen, kw = table[rng.randrange(len(table))]
-        pattern = rng.choice(SHAPES)
+        pattern = rng.choice(patterns or SHAPES)
         k = 1 if pattern == "1" else rng.randint(2, 3)
         m = rng.randint(2, 3)
         try:
